@@ -151,17 +151,23 @@ the sink only when the delivery goroutine gets to it — after `Handle` has long
 sink only if nobody writes to that buffer in between.  `BState` adds the buffers to the protocol: `fmt` writes the
 line into a buffer, the item refers to the buffer by key, and `finish` hands the sink what the buffer holds AT THAT
 MOMENT (`sunk`).  Under the policy of the code (`fresh`: `var buffer bytes.Buffer`, one per call, never written again)
-the bytes the sink gets are the formatted line; under the contrast policy (`pooled`: one buffer per goroutine, reset
-and reused by the next call) a queued record is overwritten by the next one. -/
+the bytes the sink gets are the formatted line; under the contrast policies (`pooled`: one buffer per goroutine, reset
+and reused by the next call; `shared`: one pooled buffer for all goroutines, released when `Handle` returns) a queued
+record is overwritten by the next one. -/
 
 inductive Policy where
   | fresh | pooled
+  /-- CONTRAST: one buffer in a `sync.Pool` shared by all goroutines, taken at the start of `Handle` and put back by a
+      `defer` when `Handle` returns — while the record may still be queued.  (Exact for schedules in which the calls do
+      not overlap, i.e. every `fmt p` is directly followed by `send p`: then the pool always hands out this one buffer.) -/
+  | shared
 deriving BEq, DecidableEq, Repr
 
 def bufKey (pol : Policy) (x : Item) : Nat × Nat :=
   match pol with
   | .fresh => (x.pid, x.idx)
   | .pooled => (x.pid, 0)
+  | .shared => (0, 0)
 
 structure BState where
   s : State
